@@ -1030,8 +1030,14 @@ RETCODE adfCreateDir ( struct AdfVolume * const vol,
     if ( rc != RC_OK )
         return rc;
 
-    /* -1 : do not use a specific, already allocated sector */
-    nSect = adfCreateEntry(vol, &parent, name, -1);
+    /* nothing is linked into the parent before everything the new directory
+       needs has been allocated and written */
+    if ( adfNameToEntryBlk ( vol, parent.hashTable, name,
+                             (struct bEntryBlock *) &dir, NULL ) != -1 ) {
+        (*adfEnv.wFct)("adfCreateDir : entry already exists");
+        return RC_ERROR;
+    }
+    nSect = adfGet1FreeBlock(vol);
     if (nSect==-1) {
         (*adfEnv.wFct)("adfCreateDir : no sector available");
         return RC_ERROR;
@@ -1050,18 +1056,34 @@ RETCODE adfCreateDir ( struct AdfVolume * const vol,
     if (isDIRCACHE(vol->dosType)) {
         /* for adfCreateEmptyCache, will be added by adfWriteDirBlock */
         dir.secType = ST_DIR;
-        rc = adfAddInCache ( vol, &parent, (struct bEntryBlock *) &dir );
-        if ( rc != RC_OK )
-            return rc;
         rc = adfCreateEmptyCache ( vol, (struct bEntryBlock *)&dir, -1 );
-        if ( rc != RC_OK )
-            return rc;        
+        if ( rc != RC_OK ) {
+            adfSetBlockFree ( vol, nSect );
+            return rc;
+        }
+        rc = adfAddInCache ( vol, &parent, (struct bEntryBlock *) &dir );
+        if ( rc != RC_OK ) {
+            adfSetBlockFree ( vol, dir.extension );
+            adfSetBlockFree ( vol, nSect );
+            return rc;
+        }
     }
 
     /* writes the dirblock, with the possible dircache assiocated */
     rc = adfWriteDirBlock ( vol, nSect, &dir );
-    if ( rc != RC_OK )
+    if ( rc != RC_OK ) {
+        if (isDIRCACHE(vol->dosType))
+            adfSetBlockFree ( vol, dir.extension );
+        adfSetBlockFree ( vol, nSect );
         return rc;
+    }
+
+    if ( adfCreateEntry ( vol, &parent, name, nSect ) == -1 ) {
+        if (isDIRCACHE(vol->dosType))
+            adfSetBlockFree ( vol, dir.extension );
+        adfSetBlockFree ( vol, nSect );
+        return RC_ERROR;
+    }
 
     rc = adfUpdateBitmap ( vol );
 
@@ -1089,8 +1111,14 @@ RETCODE adfCreateFile ( struct AdfVolume * const        vol,
     if ( rc != RC_OK )
         return rc;
 
-    /* -1 : do not use a specific, already allocated sector */
-    nSect = adfCreateEntry(vol, &parent, name, -1);
+    /* nothing is linked into the parent before the header (and its cache
+       record) has been allocated and written */
+    if ( adfNameToEntryBlk ( vol, parent.hashTable, name,
+                             (struct bEntryBlock *) fhdr, NULL ) != -1 ) {
+        (*adfEnv.wFct)("adfCreateFile : entry already exists");
+        return RC_ERROR;
+    }
+    nSect = adfGet1FreeBlock(vol);
     if (nSect==-1) return RC_ERROR;
 /*printf("new fhdr=%d\n",nSect);*/
     memset(fhdr,0,512);
@@ -1106,14 +1134,24 @@ RETCODE adfCreateFile ( struct AdfVolume * const        vol,
     adfTime2AmigaTime(adfGiveCurrentTime(),
         &(fhdr->days),&(fhdr->mins),&(fhdr->ticks));
 
-    rc = adfWriteFileHdrBlock ( vol, nSect, fhdr );
-    if ( rc != RC_OK )
-        return rc;
-
     if ( isDIRCACHE ( vol->dosType ) ) {
+        fhdr->secType = ST_FILE;   /* read by adfAddInCache, set again by adfWriteFileHdrBlock */
         rc = adfAddInCache ( vol, &parent, (struct bEntryBlock *) fhdr );
-        if ( rc != RC_OK )
+        if ( rc != RC_OK ) {
+            adfSetBlockFree ( vol, nSect );
             return rc;
+        }
+    }
+
+    rc = adfWriteFileHdrBlock ( vol, nSect, fhdr );
+    if ( rc != RC_OK ) {
+        adfSetBlockFree ( vol, nSect );
+        return rc;
+    }
+
+    if ( adfCreateEntry ( vol, &parent, name, nSect ) == -1 ) {
+        adfSetBlockFree ( vol, nSect );
+        return RC_ERROR;
     }
 
     rc = adfUpdateBitmap ( vol );
